@@ -48,7 +48,7 @@ pub fn mtypes() -> Vec<MType> {
     let et = |v: &str, ps: Vec<Pat>| Pat::EnumTup("E".into(), v.into(), ps);
     let s = |fs: Vec<(&str, Pat)>, rest: bool| Pat::Struct("S".into(), fs.into_iter().map(|(f, p)| (f.to_string(), p)).collect(), rest);
     vec![
-        MType { name: "bool", ty: Ty::Bool, defs: Defs::default(), alphabet: vec![Pat::Bool(true), Pat::Bool(false), w()], max_len_quick: 4, max_len_thorough: 6 },
+        MType { name: "bool", ty: Ty::Bool, defs: Defs::default(), alphabet: vec![Pat::Bool(true), Pat::Bool(false), w()], max_len_quick: 6, max_len_thorough: 8 },
         MType {
             name: "u8",
             ty: Ty::Int(U8),
@@ -77,8 +77,8 @@ pub fn mtypes() -> Vec<MType> {
                 pru(10, 256, false),
                 pru(0, 300, true),
             ],
-            max_len_quick: 3,
-            max_len_thorough: 4,
+            max_len_quick: 4,
+            max_len_thorough: 5,
         },
         MType {
             name: "i8",
@@ -108,8 +108,8 @@ pub fn mtypes() -> Vec<MType> {
                 pru(0, 200, true),
                 pru(2, 127, true),
             ],
-            max_len_quick: 3,
-            max_len_thorough: 4,
+            max_len_quick: 4,
+            max_len_thorough: 5,
         },
         MType {
             name: "u16",
@@ -129,8 +129,8 @@ pub fn mtypes() -> Vec<MType> {
                 pru(0, 65536, false),
                 Pat::Int(65536, None),
             ],
-            max_len_quick: 3,
-            max_len_thorough: 4,
+            max_len_quick: 4,
+            max_len_thorough: 5,
         },
         MType {
             name: "i32",
@@ -151,8 +151,8 @@ pub fn mtypes() -> Vec<MType> {
                 pru(0, 2147483648, false),
                 Pat::Int(2147483648, None),
             ],
-            max_len_quick: 3,
-            max_len_thorough: 4,
+            max_len_quick: 4,
+            max_len_thorough: 5,
         },
         MType {
             name: "u64",
@@ -169,8 +169,8 @@ pub fn mtypes() -> Vec<MType> {
                 pr(1i128 << 63, u64::MAX as i128, true, U64),
                 pr((1i128 << 63) + 1, u64::MAX as i128, true, U64),
             ],
-            max_len_quick: 3,
-            max_len_thorough: 4,
+            max_len_quick: 4,
+            max_len_thorough: 5,
         },
         MType {
             name: "enum",
@@ -189,8 +189,8 @@ pub fn mtypes() -> Vec<MType> {
                 et("C", vec![Pat::Bool(false), Pat::Bool(false)]),
                 et("C", vec![w(), Pat::Bool(false)]),
             ],
-            max_len_quick: 3,
-            max_len_thorough: 4,
+            max_len_quick: 4,
+            max_len_thorough: 5,
         },
         MType {
             name: "(bool,u8)",
@@ -208,8 +208,8 @@ pub fn mtypes() -> Vec<MType> {
                 Pat::Tup(vec![Pat::Bool(true), pr(10, 255, true, U8)]),
                 Pat::Tup(vec![Pat::Bool(false), pr(0, 10, false, U8)]),
             ],
-            max_len_quick: 3,
-            max_len_thorough: 4,
+            max_len_quick: 4,
+            max_len_thorough: 5,
         },
         MType {
             name: "(u8,u8)",
@@ -227,8 +227,8 @@ pub fn mtypes() -> Vec<MType> {
                 Pat::Tup(vec![pr(0, 9, true, U8), pr(10, 255, true, U8)]),
                 Pat::Tup(vec![w(), n()]),
             ],
-            max_len_quick: 3,
-            max_len_thorough: 4,
+            max_len_quick: 4,
+            max_len_thorough: 5,
         },
         MType {
             name: "struct",
@@ -246,8 +246,8 @@ pub fn mtypes() -> Vec<MType> {
                 s(vec![("a", Pat::Bool(true))], true),
                 s(vec![("b", pr(0, 9, true, U8)), ("a", w())], false),
             ],
-            max_len_quick: 3,
-            max_len_thorough: 4,
+            max_len_quick: 4,
+            max_len_thorough: 5,
         },
         MType {
             name: "(enum,bool)",
@@ -264,8 +264,8 @@ pub fn mtypes() -> Vec<MType> {
                 Pat::Tup(vec![et("C", vec![Pat::Bool(true), w()]), Pat::Bool(true)]),
                 Pat::Tup(vec![w(), Pat::Bool(true)]),
             ],
-            max_len_quick: 3,
-            max_len_thorough: 4,
+            max_len_quick: 4,
+            max_len_thorough: 5,
         },
         MType {
             name: "((bool,bool),u8)",
@@ -281,8 +281,8 @@ pub fn mtypes() -> Vec<MType> {
                 Pat::Tup(vec![Pat::Tup(vec![w(), z()]), pr(1, 9, true, U8)]),
                 Pat::Tup(vec![w(), pi(0, U8)]),
             ],
-            max_len_quick: 3,
-            max_len_thorough: 4,
+            max_len_quick: 4,
+            max_len_thorough: 5,
         },
     ]
 }
